@@ -38,7 +38,7 @@ ASSUMPTIONS = [
 
 
 def population(tier, seed):
-    n = {"quick": (260, 60, 60), "thorough": (3000, 600, 600)}[tier]
+    n = {"quick": (200, 40, 40), "thorough": (1500, 300, 300)}[tier]
     progs = minic_gen.generate(seed * 1000 + 31, PLAT, "c03", n[0], "v0_")
     progs += minic_gen.generate(seed * 1000 + 32, PLAT, "cond", n[1], "v1_")
     progs += minic_gen.generate(seed * 1000 + 33, PLAT, "mix", n[2], "v2_")
@@ -50,6 +50,6 @@ def main(tier, seed, replay=None):
     if replay:
         return minic.replay(PID, replay)
     progs = population(tier, seed)
-    sizes = (60, 300, 100) if tier == "quick" else (150, 400, 600)
+    sizes = (40, 300, 100) if tier == "quick" else (80, 400, 500)
     rc, _cov = minic.run_check(PID, tier, seed, progs, "verdict", sizes, assumptions=ASSUMPTIONS)
     return rc
